@@ -27,6 +27,9 @@ def main(argv=None):
         f = rep["failures"][0]
         ck.fail("buffers.OverflowableBuffer/bounded:fifo-histories", "history:" + repr(f)[:80], "bounded stand-in: real buffer deviates from a FIFO byte queue: %s" % f["problem"],
                 replay={"history": f, "label": "bounded"}, reproduced=True)
+    if ck.tier == "thorough":
+        from vlib.runtime import run_monitor
+        run_monitor(ck, ("buffers.",))
     ck.trusted.extend([
         "file model of contracts/buffers.py (content, pos; read/write/seek/tell) for BytesIO and TemporaryFile -- validated only by the bounded stand-in",
         "pyvc VC generator; cvc5/z3; builtin string/slice semantics",
